@@ -74,6 +74,8 @@ type Run struct {
 	nonExh   []string
 
 	states, transitions, traces atomic.Int64
+	ticks                       atomic.Int64
+	noStall                     atomic.Bool
 
 	replays  map[string]ReplayFn
 	viols    map[string]*recorded // by signature
@@ -144,8 +146,46 @@ func Start(prop, level string) *Run {
 		}
 	}
 	r.deadline = r.start.Add(budget)
+	go r.watchdog()
 	return r
 }
+
+// DisableStallWatchdog is for drivers that run the code under test in subprocesses with their
+// own time limits and count their evaluations only at the end.
+func (r *Run) DisableStallWatchdog() { r.noStall.Store(true) }
+
+// watchdog ends a run in which a call into the code under test does not return: the checks call
+// the library in-process, so a non-terminating call (property C03's subject) would otherwise hang
+// the check for ever. No progress (no evaluation, state or transition counted) for VERIF_STALL_S
+// seconds (default 600), or five minutes past the time budget: the evidence is written with
+// exhaustive=false and the process exits with what it has found so far.
+func (r *Run) watchdog() {
+	stall := 600 * time.Second
+	if s := os.Getenv("VERIF_STALL_S"); s != "" {
+		if v, err := strconv.Atoi(s); err == nil && v > 0 {
+			stall = time.Duration(v) * time.Second
+		}
+	}
+	last, lastChange := int64(-1), time.Now()
+	for {
+		time.Sleep(5 * time.Second)
+		cur := r.evals.Load() + r.states.Load() + r.transitions.Load() + r.ticks.Load()
+		if cur != last {
+			last, lastChange = cur, time.Now()
+		}
+		switch {
+		case !r.noStall.Load() && time.Since(lastChange) > stall:
+			r.NotExhaustive("no progress for %d s: a call into the code under test does not return (non-termination is decided by C03); stopped", int(stall.Seconds()))
+			r.Finish()
+		case time.Now().After(r.deadline.Add(5 * time.Minute)):
+			r.NotExhaustive("time budget exceeded by five minutes; stopped")
+			r.Finish()
+		}
+	}
+}
+
+// Tick tells the watchdog that the run is alive (for long phases that count nothing).
+func (r *Run) Tick() { r.ticks.Add(1) }
 
 func (r *Run) Thorough() bool { return r.Tier == "thorough" }
 
